@@ -21,7 +21,7 @@ func cat(lists ...[]string) []string {
 
 var lockAssume = []string{
 	"schedules are not enumerated: by the lock-invariant rule, if every critical section is sequentially correct and every access to the log happens in a section holding the exclusive lock in the epoch of its read (both proved here as obligations on the real code), every interleaving is equivalent to a serial order of sections; that the kernel grants LOCK_EX to at most one open file description at a time and that LOCK_NB fails fast are trusted (flock(2))",
-	"contracts of readEvents (bounded stand-in in C03/C12/C13), ergoDir and writeJSON are assumed; appendEvents and replaceEventsAtomically are verified on their bodies for the write protocol (C03/C04) while their clauses [ok]/[fail] tying the ghost log version to a completed write stay assumed; getEventsPath is verified (C18); I/O faults of stdout are excluded",
+	"contracts of readEvents (bounded stand-in in C03/C12/C13), resolveErgoDir (bounded stand-in in C18) and writeJSON are assumed; appendEvents and replaceEventsAtomically are verified on their bodies for the write protocol (C03/C04) while their clauses [ok]/[fail] tying the ghost log version to a completed write stay assumed; getEventsPath is verified (C18); I/O faults of stdout are excluded",
 }
 
 var lockFuncs = []string{"ensureFileExists", "withLock"}
@@ -130,7 +130,7 @@ var propSpecs = map[string]*PropSpec{
 	},
 	"C18": {
 		ID: "C18", Title: "Every command finds the same store, and init never hides data", Exclude: cat(txLabels, jsonLabels),
-		Funcs:     cat(lockFuncs, []string{"getEventsPath", "RunInit", "loadGraph"}, []string{"applyTombstone", "sortedKeys", "replayEvents"}),
+		Funcs:     cat(lockFuncs, []string{"getEventsPath", "ergoDir", "RunInit", "loadGraph"}, []string{"applyTombstone", "sortedKeys", "replayEvents"}),
 		Census:    "log-path",
 		Bounded:   []string{"resolveErgoDir"},
 		Technique: "contract-based deductive verification with a ghost file-presence set: getEventsPath returns plans.jsonl if present, else events.jsonl if present, else plans.jsonl (proved on the body over os.Stat's contract); init never switches an existing store to another log file and removes nothing; withLock creates at most the lock file; structural census: every log primitive in the package receives a path that flows from getEventsPath; bounded stand-in for the directory search",
